@@ -186,9 +186,9 @@ class Engine:
 
     # ---------------------------------------------------------------- registration
     def model(self,pattern,fn,name=None):
-        self.models.append((re.compile(pattern),fn,name or pattern))
+        self.models.append((re.compile(pattern),fn,name or pattern)); self.resolve_cache={}
     def stub(self,pattern,fn,name=None):
-        self.stubs.insert(0,(re.compile(pattern),fn,name or pattern))
+        self.stubs.insert(0,(re.compile(pattern),fn,name or pattern)); self.resolve_cache={}
     def clear_stubs(self): self.stubs=[]
 
     # ---------------------------------------------------------------- lookup
@@ -258,7 +258,7 @@ class Engine:
         return None
 
     # ---------------------------------------------------------------- exploration
-    def explore(self,entry,mk_args,check,max_paths=200000,prefixes=None,on_progress=None):
+    def explore(self,entry,mk_args,check,max_paths=200000,prefixes=None,budget=None):
         """entry: Body or python callable(run,args)->value.  mk_args(run)->(args,ghost).
         check(run,outcome,ghost)->record.  returns list of records."""
         self.work=[list(p) for p in prefixes] if prefixes is not None else [[]]
@@ -288,6 +288,8 @@ class Engine:
             finally:
                 self.solver.pop()
             if self.npaths>max_paths: raise Unsupported('path budget %d exhausted'%max_paths)
+            if budget is not None and self.npaths+self.ninfeasible>=budget: break
+        self.leftover=self.work; self.work=[]
         return results
 
     def split_work(self,entry,mk_args,want):
@@ -648,18 +650,24 @@ class Engine:
 
     def call_named(self,run,key,argv,func=None):
         func=func or key
+        ck=(key,self.type_of(argv[0]) if argv else None)
+        hit=self.resolve_cache.get(ck)
+        if hit is None:
+            hit=self._resolve(key,argv)
+            self.resolve_cache[ck]=hit
+        kind,target,name=hit
+        if kind=='body': return self.call_fn(run,target,argv)
+        if kind=='none': raise Unsupported('no model for call: '+key[:200])
+        self.used[name]+=1
+        return target(self,run,argv,func)
+    def _resolve(self,key,argv):
         for pat,fn,name in self.stubs:
-            if pat.search(key):
-                self.used['stub:'+name]+=1
-                return fn(self,run,argv,func)
+            if pat.search(key): return ('stub',fn,'stub:'+name)
         b=self.resolve_incrate(key,argv)
-        if b is not None:
-            return self.call_fn(run,b,argv)
+        if b is not None: return ('body',b,None)
         for pat,fn,name in self.models:
-            if pat.search(key):
-                self.used['model:'+name]+=1
-                return fn(self,run,argv,func)
-        raise Unsupported('no model for call: '+key[:200])
+            if pat.search(key): return ('model',fn,'model:'+name)
+        return ('none',None,None)
 
     def call_value(self,run,f,args):
         """call a closure / fn item / python callable with untupled args"""
@@ -686,6 +694,20 @@ class Engine:
                 return self.call_fn(run,c[0],[v if isinstance(v,Ref) else Ref(Cell(d))])
         from .models import clone_val
         return clone_val(d)
+
+    def eq(self,run,a,b):
+        """PartialEq::eq(&a,&b): in-crate impl from MIR if the type has one, else structural"""
+        from .models import val_eq
+        da=deref(a)
+        if isinstance(da,Agg):
+            c=self.impl_index.get(('PartialEq',da.ty,'eq'))
+            if c and len(c)==1:
+                ra=a if isinstance(a,Ref) else Ref(Cell(da)); db=deref(b); rb=b if isinstance(b,Ref) else Ref(Cell(db))
+                # peel double references so both sides are &T
+                while isinstance(ra.get(),Ref): ra=ra.get()
+                while isinstance(rb.get(),Ref): rb=rb.get()
+                return self.call_fn(run,c[0],[ra,rb])
+        return val_eq(a,b)
 
     def display(self,run,v):
         """ToString via the in-crate Display impl"""
